@@ -4,6 +4,9 @@ pub mod c01;
 pub mod c02;
 pub mod c03;
 pub mod c04;
+pub mod c05;
+pub mod c06;
+pub mod c07;
 
 pub fn property(id: &str) -> Option<Property> {
     match id {
@@ -11,6 +14,9 @@ pub fn property(id: &str) -> Option<Property> {
         "C02" => Some(c02::property()),
         "C03" => Some(c03::property()),
         "C04" => Some(c04::property()),
+        "C05" => Some(c05::property()),
+        "C06" => Some(c06::property()),
+        "C07" => Some(c07::property()),
         _ => None,
     }
 }
